@@ -91,7 +91,9 @@ def gen(ctx):
     rng, tier = ctx["rng"], ctx["tier"]
     n = 2500 if tier == "quick" else 40000
     cases = []
-    nonstr = [O((I(1), S("x")), (NULL, I(2)), (A(I(1)), TRUE)), O((F(1.5), A(I(3), I(1))), (S("k"), O((TRUE, I(1)))))]
+    nonstr = [O((I(1), S("x")), (NULL, I(2)), (A(I(1)), TRUE)), O((F(1.5), A(I(3), I(1))), (S("k"), O((TRUE, I(1))))),
+              O((FALSE, I(1))), O((NULL, I(1)), (FALSE, I(2)), (TRUE, I(3))), O((FALSE, NULL), (S("key"), FALSE), (S("k"), I(0)), (I(0), FALSE)),
+              O((S("name"), I(1)), (S("value"), I(2)), (S("key"), NULL)), O((O((S("key"), FALSE)), I(1)), (A(), FALSE), (S(""), NULL))]
     for _ in range(n):
         kind, lhs, rhs = rng.choice(EQS)
         f = rng.choice(KEYF)
@@ -105,7 +107,7 @@ def gen(ctx):
                 "any": ARRS * 3 + OBJS * 2 + SCALARS}[dom]
         src = rng.choice(pool)
         inp = from_json(json.loads(src))
-        if rng.random() < 0.05 and dom in ("any", "obj", "arrobj"):
+        if rng.random() < (0.3 if dom == "obj" else 0.05) and dom in ("any", "obj", "arrobj"):
             inp = rng.choice(nonstr)
         vars = [("x", from_json(json.loads(rng.choice(XS)))), ("s", from_json(json.loads(rng.choice(["\",\"", "\"\"", "\"a\"", "\"ab\"", "1", "null"])))),
                 ("d", I(rng.choice([0, 1, 2, 3]))), ("n", I(rng.choice([0, 1, 2]))), ("t", from_json(json.loads(rng.choice(["\"a\"", "\"\"", "\"abc\"", "\"c\"", "\"ab\"", "\"x\"", "\"1\""])))), ("p", from_json(json.loads(rng.choice(["[]", "[0]", "[\"a\"]", "[\"a\",\"b\"]", "[1,0]", "[\"d\",1,\"e\"]"]))))]
@@ -137,12 +139,65 @@ def gen(ctx):
                                   inputs=[mk(hv.encode())], vars=[("x", mk(nv.encode()))], kind="search-" + kind, py=(hv, nv, kind)))
     for arr, nd in [([1, 1, 1, 1], [1, 1]), ([1, 2, 1, 2, 1, 2], [1, 2, 1, 2]), ([1, 2, 1], 1), ([[1], [1]], [[1]]), ([], []), ([1], [])]:
         cases.append(dict(filter="[indices($x), index($x), rindex($x)]", inputs=[from_json(arr)], vars=[("x", from_json(nd))], kind="search-arr", py=(arr, nd, "arr")))
+    # containment against a Python reference: needles built from pieces of the haystack (with repetitions, so that a needle
+    # can be longer than what contains it) and unrelated ones
+    for _ in range(250 if tier == "quick" else 4000):
+        h = rand_tree(rng, 3)
+        nd = needle_of(rng, h) if rng.random() < 0.8 else rand_tree(rng, 2)
+        cases.append(dict(filter="[contains($x), (. as $h | $x | inside($h))]", inputs=[from_json(h)], vars=[("x", from_json(nd))], kind="pyref-contains", py=(h, nd)))
     # Python references
     for _ in range(200 if tier == "quick" else 3000):
         k = rng.randint(0, 9)
         arr = [rng.choice([1, 2, 3, 1.0, "a", "b", None, [1], [2], {"a": 1}, {"a": 2}, True]) for _ in range(k)]
         cases.append(dict(filter="[sort, group_by(type), unique, (indices(1)), (indices([1,2])), flatten, (map(type) | unique)]", inputs=[from_json(arr)], kind="pyref", py=arr))
     return cases
+
+
+def rand_tree(rng, d):
+    r = rng.random()
+    if d <= 0 or r < 0.3:
+        return rng.choice([1, 2, 1.0, "foobar", "foo", "bar", "", "oba", None, True, False, [], {}])
+    if r < 0.7:
+        return [rand_tree(rng, d - 1) for _ in range(rng.randint(0, 3))]
+    return {k: rand_tree(rng, d - 1) for k in rng.sample(["a", "b", "c"], rng.randint(0, 3))}
+
+
+def needle_of(rng, h):
+    """something the haystack contains (mostly): pieces of it, repeated and reordered"""
+    if isinstance(h, str):
+        if not h or rng.random() < 0.2:
+            return h
+        i = rng.randint(0, len(h)); j = rng.randint(i, len(h))
+        return h[i:j]
+    if isinstance(h, list):
+        if not h:
+            return rng.choice([[], [1]])
+        k = rng.randint(0, len(h) + 2)
+        out = []
+        for _ in range(k):
+            e = rng.choice(h)
+            # several pieces of one element
+            out.append(needle_of(rng, e))
+        return out
+    if isinstance(h, dict):
+        ks = [k for k in h if rng.random() < 0.7]
+        out = {k: needle_of(rng, h[k]) for k in ks}
+        if rng.random() < 0.1:
+            out["zz"] = 1
+        return out
+    return h if rng.random() < 0.9 else rng.choice([1, "x", None])
+
+
+def py_contains(a, b):
+    if isinstance(a, str) and isinstance(b, str):
+        return b.encode() in a.encode()
+    if isinstance(a, list) and isinstance(b, list):
+        return all(any(py_contains(x, y) for x in a) for y in b)
+    if isinstance(a, dict) and isinstance(b, dict):
+        return all(k in a and py_contains(a[k], v) for k, v in b.items())
+    if type(a) in TYPE_RANK and type(b) in TYPE_RANK and TYPE_RANK[type(a)] == TYPE_RANK[type(b)]:
+        return py_key(a) == py_key(b)
+    return False
 
 
 TYPE_RANK = {type(None): 0, bool: 1, int: 2, float: 2, str: 3, list: 4, dict: 5}
@@ -193,6 +248,12 @@ def oracle(c, impl, model=None):
             hb, nb = h.encode(), nd.encode()
             if got[5] != from_json(nb in hb) or got[6] != from_json(hb.startswith(nb)) or got[7] != from_json(hb.endswith(nb)):
                 return ("contains-starts-ends-" + kind, "contains/startswith/endswith(%r) on %r: %s" % (nd, h, sx.dumps(out)))
+        return None
+    if c["kind"] == "pyref-contains":
+        h, nd = c["py"]
+        want = py_contains(h, nd)
+        if out[1] != from_json(want) or out[2] != from_json(want):
+            return ("pyref-contains", "%s | contains(%s): got %s, by the documented definition: %s" % (json.dumps(h), json.dumps(nd), sx.dumps(out), want))
         return None
     if c["kind"] == "pyref":
         arr = c["py"]
